@@ -6,8 +6,10 @@
 // inside event, ack, connection, disconnecting and disconnect handlers). They run in child
 // processes (one per GOMAXPROCS value) under three monitors: the Go race detector
 // (halt_on_error=0, reports collected from the log and attributed by the top frame of the two
-// accesses), go-deadlock through the repository's own internal/sync aliases (lock-wait
-// timeouts are violations, lock-order reports are warnings), and a per-operation watchdog
+// accesses), go-deadlock through the repository's own internal/sync aliases (a lock wait of
+// 45 s is a violation when the holder turns out to be stuck or gone — decided 70 s later from
+// the runtime's wait clock of the holder goroutine; a holder that keeps working is counted
+// only; lock-order reports are warnings), and a per-operation watchdog
 // (an operation that does not return within 60 s while its peer is alive => violation with a
 // goroutine dump). Hooks H1/H2/H4/H5 inject random yields.
 package main
@@ -22,6 +24,7 @@ import (
 	"regexp"
 	"runtime"
 	"sort"
+	"strconv"
 	"strings"
 	"sync"
 	"sync/atomic"
@@ -375,7 +378,8 @@ func childMain(run *vk.Run) {
 	var dlBuf bytes.Buffer
 	deadlock.Opts.DeadlockTimeout = 45 * time.Second
 	deadlock.Opts.LogBuf = &lockedWriter{mu: &dlMu, buf: &dlBuf}
-	var waits, orders atomic.Int32
+	var waits, orders, stuck atomic.Int32
+	var pendingVerdicts atomic.Int32
 	deadlock.Opts.OnPotentialDeadlock = func() {
 		dlMu.Lock()
 		txt := dlBuf.String()
@@ -388,12 +392,46 @@ func childMain(run *vk.Run) {
 			run.Count("lock_order_reports(warning)", 1)
 			return
 		}
-		if waits.Add(1) <= 3 {
-			p := filepath.Join(vk.Root, ".work", fmt.Sprintf("c16-lockwait-%d-%d.txt", os.Getpid(), waits.Load()))
-			os.WriteFile(p, []byte(txt), 0o644)
-			run.Violation(vk.Violation{Sub: "lock-wait-timeout", Fields: map[string]any{}, What: "go-deadlock: a mutex could not be acquired for 45 s: " + firstRepoLine(txt),
-				Witness: map[string]any{"report": p, "stacks": vk.DumpGoroutines("c16-lockwait")}})
-		}
+		// A lock that could not be taken for 45 s is a deadlock only if its holder is stuck. The holder
+		// may also be busy for a long time and release the lock later (Manager.reconnect keeps
+		// connectMu for the whole reconnection loop while the server is down; the goroutines of
+		// concurrent Open() calls queue behind it, no public call is blocked): that is not a
+		// violation. Deciding observation: 70 s later the runtime's own wait clock of the holder
+		// goroutine ("[semacquire, 1 minutes]") says whether it has been parked in ONE wait for more
+		// than a minute; a holder that no longer exists left the mutex locked.
+		holder := holderGID(txt)
+		waiter := waiterGID(txt)
+		go func() {
+			time.Sleep(70 * time.Second)
+			all := allStacks()
+			hdr, hstack, exists := goroutineBlock(all, holder)
+			_, wstack, wexists := goroutineBlock(all, waiter)
+			stillWaiting := wexists && strings.Contains(wstack, "go-deadlock")
+			verdict := ""
+			switch {
+			case !stillWaiting:
+				// the waiter got the lock in the meantime
+			case holder != "" && !exists:
+				verdict = "the goroutine that took the mutex has exited without releasing it"
+			case exists && parkedMinutes(hdr) >= 1:
+				verdict = "the holder has been parked in one wait for over a minute: " + hdr
+			}
+			if verdict == "" {
+				run.Count("long_lock_wait_holder_progressing(no violation)", 1)
+				if lw := waits.Add(1); lw <= 3 {
+					os.WriteFile(filepath.Join(vk.Root, ".work", fmt.Sprintf("c16-longwait-%d-%d.txt", os.Getpid(), lw)), []byte(txt+"\n--- 70 s later, holder:\n"+hdr+"\n"+hstack), 0o644)
+				}
+				return
+			}
+			if stuck.Add(1) <= 3 {
+				p := filepath.Join(vk.Root, ".work", fmt.Sprintf("c16-lockwait-%d-%d.txt", os.Getpid(), stuck.Load()))
+				os.WriteFile(p, []byte(txt+"\n--- 70 s later, holder:\n"+hdr+"\n"+hstack), 0o644)
+				run.Violation(vk.Violation{Sub: "lock-wait-timeout", Fields: map[string]any{}, What: "go-deadlock: a mutex could not be acquired for 45 s and " + verdict + " :: " + firstRepoLine(txt),
+					Witness: map[string]any{"report": p, "stacks": vk.DumpGoroutines("c16-lockwait")}})
+			}
+		}()
+		pendingVerdicts.Add(1)
+		go func() { time.Sleep(72 * time.Second); pendingVerdicts.Add(-1) }()
 	}
 	// random yields at the hooks
 	var yseed atomic.Int64
@@ -415,6 +453,7 @@ func childMain(run *vk.Run) {
 			break
 		}
 	}
+	vk.WaitUntil(80*time.Second, func() bool { return pendingVerdicts.Load() == 0 })
 	log.mu.Lock()
 	for pair := range log.pairs {
 		run.Distinct("overlap:" + pair)
@@ -438,6 +477,56 @@ func (w *lockedWriter) Write(p []byte) (int, error) {
 	w.mu.Lock()
 	defer w.mu.Unlock()
 	return w.buf.Write(p)
+}
+
+var (
+	reHolder  = regexp.MustCompile(`Previous place where the lock was grabbed\ngoroutine (\d+) lock`)
+	reWaiter  = regexp.MustCompile(`Have been trying to lock it again for more than [^\n]*\ngoroutine (\d+) lock`)
+	reMinutes = regexp.MustCompile(`, (\d+) minutes`)
+)
+
+func holderGID(txt string) string {
+	if m := reHolder.FindStringSubmatch(txt); m != nil {
+		return m[1]
+	}
+	return ""
+}
+
+func waiterGID(txt string) string {
+	if m := reWaiter.FindStringSubmatch(txt); m != nil {
+		return m[1]
+	}
+	return ""
+}
+
+func allStacks() string {
+	buf := make([]byte, 64<<20)
+	return string(buf[:runtime.Stack(buf, true)])
+}
+
+// goroutineBlock returns the header line and the stack of goroutine gid in a runtime.Stack(all) dump.
+func goroutineBlock(all, gid string) (header, stack string, ok bool) {
+	if gid == "" {
+		return "", "", false
+	}
+	pre := "goroutine " + gid + " ["
+	for _, g := range strings.Split(all, "\n\n") {
+		if strings.HasPrefix(g, pre) {
+			if i := strings.Index(g, "\n"); i > 0 {
+				return g[:i], g[i+1:], true
+			}
+			return g, "", true
+		}
+	}
+	return "", "", false
+}
+
+func parkedMinutes(header string) int {
+	if m := reMinutes.FindStringSubmatch(header); m != nil {
+		n, _ := strconv.Atoi(m[1])
+		return n
+	}
+	return 0
 }
 
 func firstRepoLine(txt string) string {
@@ -498,7 +587,7 @@ func main() {
 	run.Rule("seeded generator of concurrent API programs: 2..16 goroutines x 15..40 operations drawn from 46 public operations on server / namespace / server socket / manager / client socket / adapter, one third of handler invocations issuing an operation themselves; " +
 		"transports and recovery vary per program; one child process per GOMAXPROCS in {1,2,4,16}; distinct = distinct unordered pairs of operation kinds that were observed overlapping in time (by call/return intervals), plus program shapes")
 	run.Assume("built with -race -tags verif,sio_deadlock", "a race report counts when the top frame of one of the two accesses is in the repository (not in the harness or a dependency)",
-		"go-deadlock lock-order reports are warnings (known false positives); only a lock wait > 45 s or an operation not returning within 60 s is a violation")
+		"go-deadlock lock-order reports are warnings (known false positives); a lock wait > 45 s is a violation when, 70 s later, the waiter still waits and the holder has exited or has been parked in one wait for over a minute (runtime wait clock) — a holder that keeps working, like the reconnection loop holding connectMu, is counted only; an operation not returning within 60 s is a violation")
 	work := filepath.Join(vk.Root, ".work")
 	os.MkdirAll(work, 0o755)
 	gomax := []string{"16", "4"}
